@@ -364,8 +364,9 @@ PROPS['C04']['v'] = [('u_mb2_fb', ['FramebufferTypeId::try_from', 'FramebufferTa
 # C07: the byte-slice constructors are proved for ALL content lengths from the (assumed, C16) contract of new_boxed;
 # fixed-size constructors: Kani full-domain; string / framebuffer constructors: Kani-bounded + native stand-in
 PROPS.setdefault('C07', dict(v=[], k_quick=[], k_thorough=[]))
-PROPS['C07']['v'] = [('u_mb2_builder', ['NetworkTag::new', 'SmbiosTag::new', 'ElfSectionsTag::new', 'EFIMemoryMapTag::new_from_map',
-                                        'TagHeader::new', 'TagHeader::set_size', 'TagType::from', 'lemma_mb2_layouts'])]
+PROPS['C07']['v'] = [('u_mb2_builder', ['NetworkTag::new', 'SmbiosTag::new', 'ElfSectionsTag::new', 'EFIMemoryMapTag::new_from_map', 'MemoryMapTag::new',
+                                        'TagHeader::new', 'TagHeader::set_size', 'TagType::from', 'lemma_mb2_layouts', 'lemma_ctor_layouts']),
+                     ('u_hdr_builder', ['InformationRequestHeaderTag::new', 'HeaderTagHeader::new', 'HeaderTagHeader::set_size', 'lemma_hdr_layouts'])]
 PROPS['C17']['v'] = [('u_mb2_dstlen', ['CommandLineTag::dst_len', 'BootLoaderNameTag::dst_len', 'ModuleTag::dst_len', 'COMMANDLINETAG_BASE_SIZE', 'BOOTLOADERNAMETAG_BASE_SIZE', 'MODULETAG_BASE_SIZE',
                                        'CommandLineTag::cmdline', 'BootLoaderNameTag::name', 'ModuleTag::cmdline'])]
 PROPS.setdefault('C11', dict(v=[], k_quick=[], k_thorough=[]))
@@ -414,7 +415,7 @@ MANIFEST_TEXT = {
         note='Assumes the contract of new_boxed (C16, checked by Kani for bounded inputs) and that references to tags held by the builder are well-formed (type-system guarantee, axiom_safe_ref_wf); VBEInfoTag is an opaque stub; the composition lemma takes as hypothesis that every supplied tag image is a tag (declared size >= 8, image length = size rounded up to 8: the postcondition of the constructors, C07, and of the typed views, C15).',
     ),
     'C07': dict(
-        text='Proof on compiled code: for every fixed-size tag constructor of both crates a loop-free Kani harness with ALL arguments symbolic proves type == specified number == Tag::ID, size == specified unpadded size, bytes [0,size) == specified little-endian encoding, accessors read the arguments back, alignment 8 and as_bytes() usable in arrays. Variable-length constructors whose content is a byte slice (NetworkTag::new, SmbiosTag::new, ElfSectionsTag::new, EFIMemoryMapTag::new_from_map) are proved in Verus for ALL content lengths on their verbatim bodies (type number, size = exact unpadded byte count, bytes = specification encoding) from the assumed C16 contract of new_boxed; the string constructors, MemoryMapTag::new, new_from_descs, FramebufferTag::new and InformationRequestHeaderTag::new are bounded (Kani, every padding residue) plus bounded native stand-ins with large contents, labelled.',
+        text='Proof on compiled code: for every fixed-size tag constructor of both crates a loop-free Kani harness with ALL arguments symbolic proves type == specified number == Tag::ID, size == specified unpadded size, bytes [0,size) == specified little-endian encoding, accessors read the arguments back, alignment 8 and as_bytes() usable in arrays. Variable-length constructors whose content is a byte slice (NetworkTag::new, SmbiosTag::new, ElfSectionsTag::new, EFIMemoryMapTag::new_from_map) or a byte copy of an argument array (MemoryMapTag::new, InformationRequestHeaderTag::new) are proved in Verus for ALL content lengths on their verbatim bodies (type number, size = exact unpadded byte count, bytes = specification encoding) from the assumed C16 contract of new_boxed; the string constructors, new_from_descs and FramebufferTag::new are bounded (Kani, every padding residue) plus bounded native stand-ins with large contents, labelled.',
         note='Oracle = specification table written independently in the harnesses. DST constructors rely on new_boxed (C16). Preconditions of the Verus constructor contracts: the tag size fits the u32 size field (8 + content <= u32::MAX); x.to_ne_bytes() is little-endian (target assumption; rewritten to the trusted primitive ne_bytes_u32); palettes of more than 65535 colours are rejected (fix 0da96be).',
     ),
     'C08': dict(
